@@ -29,3 +29,5 @@ theorem smul_zero_right_law {A : Type*} [AddCommGroup A] (k : ℤ) : k • (0 : 
 /-- in a group all of whose elements are killed by n (a group of order n), kP depends only on k mod n -/
 theorem smul_mod_order_pt_law {A : Type*} [AddCommGroup A] (n : ℤ) (hn : ∀ P : A, n • P = 0) (a : ℤ) (P : A) :
     (a % n) • P = a • P := smul_mod_order_law P n (hn P) a
+
+theorem padd_comm_law {A : Type*} [AddCommGroup A] (P Q : A) : P + Q = Q + P := add_comm P Q
